@@ -2,7 +2,7 @@
    Property statements only; proofs live in Proofs/WsRecv*.v.  Model: Model/WsRecv.v (every integer comparison of the
    receive path is the generated Gen/WsConsts.v).  [rfc_*] = the declarative reference written from RFC 6455. *)
 From Coq Require Import NArith List Bool.
-From AV Require Import Model.Masker Gen.WsConsts Model.WsRecv
+From AV Require Import Model.Masker Gen.WsConsts Model.WsRecv Proofs.WsRecvPair
                        Proofs.WsRecvHeader Proofs.WsRecvProofs Proofs.WsRecvLocal Proofs.WsRecvSplit Proofs.WsRecvSeq Proofs.WsRecvEcho Proofs.WsRecvSeqAll.
 Import ListNotations.
 Open Scope N_scope.
@@ -177,6 +177,17 @@ Theorem C02_read_terminates : forall D (cd : codec D) cf (s : rstate D) d, PInv 
 Proof. exact feed_terminates_any. Qed.
 Print Assumptions C02_read_terminates.
 
+(* ---- connections served by one process do not interact: two receive models driven by one interleaved sequence of
+   reads (any configurations, decompressors, states, any schedule) end exactly where each connection ends on its own
+   reads alone.  True of the model by construction; checked of the implementation, where the receive state lives in
+   objects that could be shared, by the multi-connection correspondence runs (xconn_stage) ---- *)
+Theorem C02_connections_independent : forall D1 D2 cd1 cd2 cf1 cf2 sc (s1 : rstate D1) (s2 : rstate D2) a e1 b e2,
+  feed_pair D1 D2 cd1 cd2 cf1 cf2 s1 s2 sc = Some (a, e1, (b, e2)) <->
+  feed_all D1 cd1 cf1 s1 (reads_of true sc) = Done D1 a e1 /\
+  feed_all D2 cd2 cf2 s2 (reads_of false sc) = Done D2 b e2.
+Proof. exact feed_pair_independent. Qed.
+Print Assumptions C02_connections_independent.
+
 (* ---- non-vacuity: a server receives a text message in two fragments with a ping in between, then a close ------- *)
 Definition ex_cfg : cfg := mkCfg true true false true true true 0 0 false false.
 Definition ex_stream : list N :=
@@ -244,3 +255,18 @@ Example C02_example_split :
            [firstn 4 ex_stream; []; firstn 7 (skipn 4 ex_stream); firstn 9 (skipn 11 ex_stream); skipn 20 ex_stream]
   = feed unit id_codec ex_cfg (init_state unit OPEN tt) ex_stream.
 Proof. vm_compute. reflexivity. Qed.
+(* two connections, reads interleaved inside a frame: each gets its own message *)
+Example C02_example_pair :
+  feed_pair unit unit id_codec id_codec (mkCfg false true false true true true 0 0 false false) (mkCfg false true false true true true 0 0 false false)
+            (init_state unit OPEN tt) (init_state unit OPEN tt)
+            [(true, [0x82; 3; 1]); (false, [0x81; 2; 104]); (true, [2; 3]); (false, [105])]
+  = match feed_all unit id_codec (mkCfg false true false true true true 0 0 false false) (init_state unit OPEN tt) [[0x82; 3; 1]; [2; 3]],
+          feed_all unit id_codec (mkCfg false true false true true true 0 0 false false) (init_state unit OPEN tt) [[0x81; 2; 104]; [105]] with
+    | Done _ a e1, Done _ b e2 => Some (a, e1, (b, e2))
+    | _, _ => None
+    end /\
+  match feed_all unit id_codec (mkCfg false true false true true true 0 0 false false) (init_state unit OPEN tt) [[0x82; 3; 1]; [2; 3]] with
+  | Done _ _ e => e = [EMsg [1; 2; 3] true]
+  | OutOfFuel _ => False
+  end.
+Proof. vm_compute. split; reflexivity. Qed.
